@@ -49,6 +49,19 @@ func c09State(r *rand.Rand, kind int) ref.State {
 		for i := range s {
 			s[i] = edgeGL[r.Intn(len(edgeGL))]
 		}
+	case 5:
+		// every element cancels its first round constant: each first-layer sum is exactly p
+		for i := range s {
+			s[i] = P - ref.RoundConstant(i)
+		}
+	case 6:
+		// some elements one off that point
+		for i := range s {
+			s[i] = ref.Sub(P-ref.RoundConstant(i), uint64(r.Intn(3)))
+			if r.Intn(2) == 0 {
+				s[i] = ref.Add(s[i], uint64(r.Intn(3)))
+			}
+		}
 	default:
 		for i := range s {
 			s[i] = randGL(r)
@@ -104,6 +117,13 @@ func init() {
 				for i := 0; i < nf; i++ {
 					cs = append(cs, fw.Case{ID: fmt.Sprintf("func/%d", i), Kind: "func", P: map[string]any{"i": i}})
 				}
+				nret := 30
+				if !ctx.Quick {
+					nret = 600
+				}
+				for i := 0; i < nret; i++ {
+					cs = append(cs, fw.Case{ID: fmt.Sprintf("retain/%d", i), Kind: "retain", P: map[string]any{"i": i}})
+				}
 				ns := 24
 				if !ctx.Quick {
 					ns = 160
@@ -149,7 +169,88 @@ func init() {
 						}
 					}
 					o.Inc("permutations_checked")
+					// the same state as circuit CONSTANTS (capacity and padding are constants in real
+					// use; builders and this engine report them as such)
+					if c.Int("i")%3 == 0 {
+						var outs poseidon.GoldilocksState
+						rc := harnRunOpt(engine.Options{Face: faceByName(c.Str("face"))}, func(api frontend.API) error {
+							chip := poseidon.NewGoldilocksChip(api)
+							var st poseidon.GoldilocksState
+							for i := range st {
+								st[i] = gl.NewVariable(s[i])
+							}
+							outs = chip.Poseidon(st)
+							return nil
+						})
+						o.Events += events(rc)
+						if rc.Verdict != engine.Accept {
+							return fw.Violate("permutation_failed", fmt.Sprintf("constant state %v: %s", s, resStr(rc)))
+						}
+						for i := range want {
+							if v := engine.Value(outs[i].Limb); !v.IsUint64() || v.Uint64() != want[i] {
+								return fw.Violate("wrong_permutation_output", fmt.Sprintf("constant state %v: out[%d]=%s want %d", s, i, v, want[i]))
+							}
+						}
+						o.Inc("constant_state_permutations_checked")
+					}
 					o.Sample = map[string]any{"state": s, "out0": want[0]}
+				case "retain":
+					// results of earlier hash calls on ONE chip are read after later calls
+					nh := 2 + r.Intn(3)
+					var ins [][]ref.F
+					var ms []int
+					flat := []*big.Int{}
+					for h := 0; h < nh; h++ {
+						n := r.Intn(20)
+						v := make([]ref.F, n)
+						for i := range v {
+							v[i] = randGL(r)
+							flat = append(flat, bu(v[i]))
+						}
+						ins = append(ins, v)
+						ms = append(ms, 1+r.Intn(12))
+					}
+					fn := func(api frontend.API, in []frontend.Variable) []frontend.Variable {
+						chip := poseidon.NewGoldilocksChip(api)
+						pos := 0
+						var kept [][]gl.Variable
+						var keptH []poseidon.GoldilocksHashOut
+						for h := 0; h < nh; h++ {
+							vs := make([]gl.Variable, len(ins[h]))
+							for i := range vs {
+								vs[i] = gl.NewVariable(in[pos])
+								pos++
+							}
+							kept = append(kept, chip.HashNToMNoPad(vs, ms[h]))
+							keptH = append(keptH, chip.HashNoPad(vs))
+						}
+						var out []frontend.Variable
+						for h := 0; h < nh; h++ {
+							for _, x := range kept[h] {
+								out = append(out, x.Limb)
+							}
+							for _, x := range keptH[h] {
+								out = append(out, x.Limb)
+							}
+						}
+						return out
+					}
+					var want []ref.F
+					for h := 0; h < nh; h++ {
+						want = append(want, ref.HashNToMNoPad(ins[h], ms[h])...)
+						want = append(want, ref.HashNToMNoPad(ins[h], 4)...)
+					}
+					got, res := gadget.EngineEval(engine.Options{Face: engine.Native}, fn, flat)
+					o.Events += events(res)
+					if res.Verdict != engine.Accept || len(got) != len(want) {
+						return fw.Violate("hash_failed:retain", fmt.Sprintf("%d hashes on one chip: %s", nh, resStr(res)))
+					}
+					for i := range want {
+						if !got[i].IsUint64() || got[i].Uint64() != want[i] {
+							return fw.Violate("earlier_hash_result_changed_by_later_call", fmt.Sprintf("%d hashes on one chip, results read afterwards: value %d = %s, want %d", nh, i, got[i], want[i]))
+						}
+					}
+					o.Inc("retained_result_sequences")
 				case "hash", "ntom":
 					n := c.Int("n")
 					m := 4
@@ -614,7 +715,8 @@ func c10Prop() *fw.Prop {
 				}
 				o.Inc("two_to_one_checked")
 			case "tovec":
-				edge := []*big.Int{big.NewInt(0), big.NewInt(1), new(big.Int).Sub(pow2(56), big.NewInt(1)), pow2(56), pow2(253), new(big.Int).Sub(bigR, big.NewInt(1)), pow2(224), new(big.Int).Sub(pow2(224), big.NewInt(1))}
+				edge := []*big.Int{big.NewInt(0), big.NewInt(1), new(big.Int).Sub(pow2(56), big.NewInt(1)), pow2(56), pow2(253), new(big.Int).Sub(bigR, big.NewInt(1)), pow2(224), new(big.Int).Sub(pow2(224), big.NewInt(1)),
+					pow2(112), pow2(168), new(big.Int).Add(pow2(200), pow2(100)), pow2(8), new(big.Int).Sub(pow2(168), big.NewInt(1)), new(big.Int).Lsh(bigP, 56)}
 				var h *big.Int
 				if i := c.Int("i"); i < len(edge) {
 					h = edge[i]
@@ -638,6 +740,27 @@ func c10Prop() *fw.Prop {
 							return fw.Violate("tovec_wrong_chunk", fmt.Sprintf("h=%s chunk %d = %s want %d", h, i, got[i], want[i]))
 						}
 					}
+				}
+				// the digest as a circuit CONSTANT (a verifier key fixed in the circuit is one)
+				{
+					var outs []gl.Variable
+					rc := harnRunOpt(engine.Options{Face: engine.Native}, func(api frontend.API) error {
+						outs = poseidon.NewBN254Chip(api).ToVec(h)
+						return nil
+					})
+					o.Events += events(rc)
+					if rc.Verdict != engine.Accept {
+						return fw.Violate("tovec_failed", fmt.Sprintf("constant h=%s %s", h, resStr(rc)))
+					}
+					if len(outs) != len(want) {
+						return fw.Violate("tovec_wrong_length", fmt.Sprintf("constant h=%s: %d chunks, want %d", h, len(outs), len(want)))
+					}
+					for i := range want {
+						if engine.Value(outs[i].Limb).Cmp(bu(want[i])) != 0 {
+							return fw.Violate("tovec_wrong_chunk", fmt.Sprintf("constant h=%s chunk %d = %s want %d", h, i, engine.Value(outs[i].Limb), want[i]))
+						}
+					}
+					o.Inc("tovec_constant_checked")
 				}
 				o.Inc("tovec_checked")
 				o.Sample = map[string]any{"hash": h.String(), "chunks": want}
@@ -741,9 +864,16 @@ func c10Prop() *fw.Prop {
 					out = append(out, t1, t2, t3)
 					out = append(out, chip.HashOrNoop([]gl.Variable{a}), chip.HashOrNoop([]gl.Variable{a, a}), chip.HashOrNoop([]gl.Variable{x, a, x}), chip.HashOrNoop([]gl.Variable{a, b, cc, x}))
 					out = append(out, chip.HashNoPad([]gl.Variable{a, b, cc})) // a, b, c must still be themselves
+					// prefixes of ONE backing array hashed before the whole array: hashing must not
+					// write into the caller's storage beyond the slice it was given
+					buf := []gl.Variable{a, b, cc, x, b, a, x, cc, a, b, b, cc, x, a}
+					for _, n := range []int{4, 5, 10, 11, 13} {
+						out = append(out, chip.HashNoPad(buf[:n]))
+					}
+					out = append(out, chip.HashOrNoop(buf[:2]), chip.HashNoPad(buf))
 					return out
 				}
-				comp, err := gadget.Compile(sys, fn, 9, 16, gadget.PadCommit, nil)
+				comp, err := gadget.Compile(sys, fn, 9, 23, gadget.PadCommit, nil)
 				if err != nil {
 					return fw.Inconcl("compile: " + err.Error())
 				}
@@ -767,6 +897,13 @@ func c10Prop() *fw.Prop {
 						t1, t2, t3,
 						ref.BNHashOrNoop([]ref.F{a}), ref.BNHashOrNoop([]ref.F{a, a}), ref.BNHashOrNoop([]ref.F{x, a, x}), ref.BNHashOrNoop([]ref.F{a, b, cc, x}),
 						ref.BNHashNoPad([]ref.F{a, b, cc})}
+					{
+						buf := []ref.F{a, b, cc, x, b, a, x, cc, a, b, b, cc, x, a}
+						for _, n := range []int{4, 5, 10, 11, 13} {
+							want = append(want, ref.BNHashNoPad(buf[:n]))
+						}
+						want = append(want, ref.BNHashOrNoop(buf[:2]), ref.BNHashNoPad(buf))
+					}
 					outs := make([]*big.Int, len(want))
 					for i := range want {
 						outs[i] = frBig(want[i])
